@@ -19,6 +19,11 @@ import (
 var (
 	errRetryableCode = errors.New("completion code indicated temporary failure")
 
+	// these are also retried: as far as the command is concerned, no valid
+	// response has arrived yet
+	errUnauthenticatedResponse = errors.New("response inside a session was not authenticated")
+	errWrongSessionResponse    = errors.New("response is addressed to a different session")
+
 	// these not only save a map lookup each open, but also register the labels
 	v2ConnectionOpenAttempts = connectionOpenAttempts.WithLabelValues("2.0")
 	v2ConnectionOpenFailures = connectionOpenFailures.WithLabelValues("2.0")
